@@ -7,6 +7,8 @@ mod exact;
 #[macro_use]
 #[path = "../driver.rs"]
 mod driver;
+#[path = "../c04.rs"]
+mod c04;
 #[path = "../c06.rs"]
 mod c06;
 
